@@ -344,6 +344,7 @@ func (w *dstW) Exists(ctx context.Context, d ocispec.Descriptor) (bool, error) {
 		if ok, err := w.und.Exists(ctx, d); err == nil && !ok && len(w.e.g.SuccAll(n)) == 0 && !vh.IsManifestKind(w.e.g.Nodes[n].Kind) {
 			w.e.tr.Emit(map[string]any{"e": "existsE", "n": n, "r": false, "err": false, "why": "race"})
 			w.und.Push(ctx, w.e.g.Descs[n], bytes.NewReader(w.e.g.Blobs[n]))
+			w.e.tr.Emit(map[string]any{"e": "foreign", "n": n})
 			return false, nil
 		}
 	}
